@@ -1,6 +1,7 @@
 import IgrisModel.C02.Lemmas
 import IgrisModel.C02.Bisect
 import IgrisModel.C02.Flat
+import IgrisModel.C02.FlatVecLemmas
 /-!
   C02 — property theorems.
 
@@ -658,5 +659,56 @@ theorem flat_set_enumeration_unique {lt : Int → Int → Bool} (h : StrictWeak 
     (ha : Sorted lt a) (hb : Sorted lt b) (hab : ∀ j, j ∈ a ↔ j ∈ b) : a = b := sorted_enum_unique h a b ha hb hab
 
 example : Sorted ltInt [2, 5, 9] := by decide
+
+/-! ### flat_set / flat_map OVER THE VECTOR (the storage `_vec` / `storage` is an igris::vector in the compat build)
+
+  `VSet` / `VMap` (FlatVec.lean) are the two containers written on top of the slot model of igris::vector: the
+  bisections and the `find_if` / `count_if` loops read the slots of the block (`rd`: a read of memory that holds
+  no readable object is a fault), a new entry goes in through the modelled `vector::insert(pos, value)`
+  (`emplace`), `clear` / the destruction of the old storage are the modelled member functions.  A `std::pair`
+  element is stored as its code under an arbitrary `Coding` with `dec ∘ enc = id` (`Coding.exists_ok`).  The
+  simulation lemmas (`vset_run_simulates`, `vmap_run_simulates`) compose the list-level refinement theorems with
+  the vector theorems: the statements below are about the containers on the real storage model. -/
+
+/-- COMPOSITION, flat_set.  For every strict weak order and every history from the empty set, flat_set running
+    on the slot model of igris::vector never faults (no read of an unconstructed / moved-from element, no access
+    outside the block, no construction over an object …), answers exactly what std::set answers (`SetHist`),
+    its storage vector represents the strictly increasing list of std::set's elements, and the ledger is
+    balanced: constructed − destroyed element objects = number of elements, allocated − freed blocks = 1 if the
+    vector holds a block. -/
+theorem flat_set_over_vector_refines {lt : Int → Int → Bool} (h : StrictWeak lt) (ops : List SOp) :
+    ∃ s' l' rets, VSet.run lt {} {} ops = some (s', l', rets) ∧
+      SetHist lt (fun _ => none) ops rets ∧
+      ∃ xs, Rep s'.v xs ∧ SRep lt ⟨xs⟩ (setSpecRun lt (fun _ => none) ops) ∧
+        l'.net = xs.length ∧ l'.blocks = held s'.v := by
+  obtain ⟨s', l', hrun, g⟩ := vset_run_simulates lt (s := {}) (xs := []) Rep.nil {} ops
+  obtain ⟨a, b⟩ := flat_set_refines h ops
+  refine ⟨s', l', _, hrun, a, _, g.rep, b, ?_, ?_⟩
+  · have := g.net; simp [Ledger.net] at this ⊢; omega
+  · have := g.blk; simp [Ledger.blocks, held] at this ⊢; omega
+
+/-- COMPOSITION, flat_map.  The same for flat_map over a vector of (coded) pairs, for every initializer list and
+    every history of operator[] (read / write / const), insert, emplace, find, count, at, size, clear,
+    re-initialisation and iteration: no fault of the slot model, std::map's answers, the storage vector
+    represents the entries in increasing key order, ledger balanced. -/
+theorem flat_map_over_vector_refines {lt : Int → Int → Bool} (h : StrictWeak lt) (c : Coding) (hc : c.ok)
+    (init : List (Int × Int)) (ops : List MOp) :
+    ∃ m' l' rets, VMap.run c lt {} {} (.init init :: ops) = some (m', l', .unit :: rets) ∧
+      MapHist lt (fun k => entry lt k init) ops rets ∧
+      ∃ xs, Rep m'.v (xs.map c.enc) ∧ MRep lt ⟨xs⟩ (mapSpecRun lt (fun k => entry lt k init) ops) ∧
+        l'.net = xs.length ∧ l'.blocks = held m'.v := by
+  obtain ⟨m', l', hrun, g⟩ := vmap_run_simulates c hc lt (m := {}) (xs := []) Rep.nil {} (.init init :: ops)
+  obtain ⟨a, b⟩ := flat_map_refines h init ops
+  have e1 : ((⟨[]⟩ : FMap).run lt (.init init :: ops)).2 = .unit :: ((FMap.ofList lt init {}).run lt ops).2 := by
+    simp [FMap.run, FMap.step]
+  have e2 : ((⟨[]⟩ : FMap).run lt (.init init :: ops)).1 = ((FMap.ofList lt init {}).run lt ops).1 := by
+    simp [FMap.run, FMap.step]
+  rw [e1] at hrun
+  rw [e2] at g
+  refine ⟨m', l', _, hrun, a, _, g.rep, b, ?_, ?_⟩
+  · have := g.net; simp [Ledger.net] at this ⊢; omega
+  · have := g.blk; simp [Ledger.blocks, held] at this ⊢; omega
+
+example : ∃ c : Coding, c.ok := Coding.exists_ok
 
 end Igris.C02
